@@ -1055,6 +1055,10 @@ def _ops_table():
         u(nm, lambda x, r, nm=nm: getattr(x, nm)())
         u(nm + "_ax0", lambda x, r, nm=nm: getattr(x, nm)(axis=0))
         u(nm + "_axm1_keep", lambda x, r, nm=nm: getattr(x, nm)(axis=-1, keepdims=True))
+    for nm in ("sum", "prod", "max", "min", "mean", "var", "std", "any"):
+        # nothing is reduced: the result must still be a new array (the library writes into it with out=)
+        u(nm + "_axempty", lambda x, r, nm=nm: getattr(x, nm)(axis=()))
+        u(nm + "_axempty_keep", lambda x, r, nm=nm: getattr(x, nm)(axis=(), keepdims=True))
     u("np.sum", lambda x, r: np.sum(x, axis=0))
     u("argmax", lambda x, r: sparse.argmax(x, axis=0))
     u("argmin", lambda x, r: sparse.argmin(x, axis=-1, keepdims=True))
@@ -1150,11 +1154,13 @@ def _ops_table():
     return T
 
 
-def _scribble(res):
+def _scribble(res, skip=()):
     """write into every writeable dense array of a result (a caller post-processing ITS OWN result in place);
     returns how many arrays were written"""
     import numpy as np
     n = 0
+    if any(res is o for o in skip):
+        return 0                  # the call legitimately handed back one of its operands
     if isinstance(res, np.ndarray):
         if res.size and res.flags.writeable and res.dtype.kind in "biufc":
             if res.dtype.kind == "b":
@@ -1162,12 +1168,20 @@ def _scribble(res):
             else:
                 np.add(res, 1, out=res, casting="unsafe")
             n += 1
+    elif type(res).__module__.startswith("sparse.") and hasattr(res, "fill_value") and not hasattr(res, "_dok_marker") \
+            and type(res).__name__ != "DOK":
+        # a sparse result: the caller updates ITS result through out= (swaps the result object's attributes)
+        try:
+            np.add(res, 1, out=res)
+            n += 1
+        except Exception:  # noqa: BLE001
+            pass
     elif isinstance(res, (tuple, list)):
         for e in res:
-            n += _scribble(e)
+            n += _scribble(e, skip)
     elif isinstance(res, dict):
         for e in res.values():
-            n += _scribble(e)
+            n += _scribble(e, skip)
     return n
 
 
@@ -1294,7 +1308,7 @@ def _impl_snap_scipy(case):
     except Exception as ex:  # noqa: BLE001
         exc = type(ex).__name__
     after = [_snapshot(o) for o in operands]
-    wrote = _scribble(res)
+    wrote = _scribble(res, operands)
     after_write = [_snapshot(o) for o in operands]
     return {"before": before, "after": after, "after_write": after_write, "wrote": wrote, "exc": exc,
             "n_operands": len(operands)}
@@ -1337,6 +1351,19 @@ def impl_snap(case):
             x = base[None].squeeze(0) if isinstance(base, sparse.COO) else base.reshape(base.shape)
             v2 = base.reshape(base.shape + (1,)) if isinstance(base, sparse.COO) else base
             operands += [x, v2]
+        elif share == "explicit-zero" and not isinstance(x, sparse.DOK) and x.nnz:
+            # an operand that stores its fill value explicitly (unpruned): canonicalising it is visible in nnz/buffers
+            k = int(rng.integers(0, x.nnz))
+            data = x.data.copy()
+            data[k] = x.fill_value
+            if isinstance(x, sparse.COO):
+                x = sparse.COO(x.coords.copy(), data, shape=x.shape, has_duplicates=False, sorted=True, prune=False,
+                               fill_value=x.fill_value)
+            else:
+                ip = x.indptr.copy() if hasattr(x.indptr, "copy") and not isinstance(x.indptr, (list, tuple)) else x.indptr
+                x = type(x)((data, x.indices.copy(), ip), shape=x.shape,
+                            compressed_axes=x.compressed_axes, fill_value=x.fill_value)
+            operands[-1] = x
         elif share == "cached" and isinstance(x, sparse.COO):
             x.enable_caching()
             operands += [x.T, x.reshape((-1,)) if x.ndim else x]
@@ -1365,7 +1392,12 @@ def impl_snap(case):
         exc = type(ex).__name__
     after = [_snapshot(o) for o in operands]
     # dense results are documented as new arrays: the caller may post-process them in place
-    wrote = _scribble(res) if not any(res is o for o in operands) else 0
+    # ... unless the call legitimately handed back an operand (astype(copy=False), asformat, identity transpose ...);
+    # a reduction never may: its result is written into even when it IS an operand object
+    must_be_fresh = case["op"].split("_")[0] in ("sum", "prod", "max", "min", "mean", "var", "std", "any", "all", "nansum",
+                                                 "nanmax", "nanmin", "nanprod", "nanmean", "np.sum", "reduce", "argmax",
+                                                 "argmin")
+    wrote = _scribble(res, () if must_be_fresh else operands)
     after_write = [_snapshot(o) for o in operands]
     return {"before": before, "after": after, "after_write": after_write, "wrote": wrote, "exc": exc,
             "n_operands": len(operands)}
@@ -1376,7 +1408,7 @@ def snap_cases(tier, seed, budget):
     names = sorted(_ops_table_names())
     fmts = ["coo", "gcxs0", "gcxs1", "gcxs2", "dok"]
     shapes = [(3,), (4,), (2, 3), (3, 3), (1, 4), (4, 1), (2, 2, 3), (3, 1, 2), (2, 3, 2, 2), (0, 3), (5,), (2, 0, 2)]
-    shares = ["plain", "plain", "T", "view", "cached", "user-arrays", "same"]
+    shares = ["plain", "plain", "T", "view", "cached", "user-arrays", "same", "explicit-zero", "explicit-zero"]
     fills = [0, 0, 0, 3, 1]
     reps = (2 if tier == "quick" else 6) * budget
     cases = []
